@@ -1,6 +1,7 @@
 import TantivyModel.Proofs.Merge
 import TantivyModel.Proofs.MergeSteps3
 import TantivyModel.Proofs.MergeWF
+import TantivyModel.Proofs.MergeKeys
 import TantivyModel.Proofs.MergeMulti5
 /-!
 # C04 — Merging never changes the logical content of the index
@@ -85,6 +86,57 @@ theorem C04_merge_translation {α} (segs : List (Segment α))
       rw [h1, h2] at hd ht
       simp only at hd ht
       rw [hd, ht]
+
+/-- (same sources as `exSegs` below) -/
+def exSegsFwd : List (Segment Nat) :=
+  [ { docs := [7, 8, 9], alive := [true, false, true],
+      terms := [([97], [⟨0, 1, [0]⟩, ⟨1, 2, [1, 3]⟩]), ([98], [⟨1, 1, [0]⟩, ⟨2, 1, [5]⟩])] },
+    { docs := [1], alive := [false], terms := [([98], [⟨0, 1, [2]⟩])] },
+    { docs := [4, 5], alive := [true, true],
+      terms := [([97], [⟨1, 1, [2]⟩]), ([99], [⟨0, 3, [1, 2, 3]⟩])] } ]
+
+/-- THE TERM MERGER: the key list the merge iterates over (`allKeys`, the model of `TermMerger`
+over the sources' term streams) is strictly increasing in byte order and holds exactly the keys
+that occur in some source — whatever order the sources' own lists are in. -/
+theorem C04_term_union_sorted {α} (segs : List (Segment α)) :
+    (allKeys segs).Pairwise KLt ∧
+    ∀ k, k ∈ allKeys segs ↔ ∃ s ∈ segs, ∃ t ∈ s.terms, t.1 = k := by
+  obtain ⟨h1, h2⟩ := keyUnion_props (segs.map fun s => s.terms.map Prod.fst)
+  refine ⟨h1, ?_⟩
+  intro k
+  rw [allKeys, h2]
+  constructor
+  · rintro ⟨ks, hks, hk⟩
+    obtain ⟨s, hs, rfl⟩ := List.mem_map.1 hks
+    obtain ⟨t, ht, rfl⟩ := List.mem_map.1 hk
+    exact ⟨s, hs, t, ht, rfl⟩
+  · rintro ⟨s, hs, t, ht, rfl⟩
+    exact ⟨_, List.mem_map.2 ⟨s, hs, rfl⟩, List.mem_map.2 ⟨t, ht, rfl⟩⟩
+
+/-- the dictionary of the merged segment is strictly sorted by term bytes (what the sstable /
+fst writer requires) and every key of it is a key of some source -/
+theorem C04_merged_dictionary_sorted {α} (segs : List (Segment α)) :
+    ((mergeModel segs).terms.map (·.1)).Pairwise KLt ∧
+    ∀ k ∈ (mergeModel segs).terms.map (·.1), ∃ s ∈ segs, ∃ t ∈ s.terms, t.1 = k := by
+  have hsub : List.Sublist ((mergeModel segs).terms.map (·.1)) (allKeys segs) := by
+    simp only [mergeModel, mergedTerms, List.map_map]
+    have : ∀ (l : List Key) (F : Key → Nat × List Posting),
+        List.Sublist (((l.map fun k => (k, (F k).1, (F k).2)).filter fun t => decide (t.2.1 > 0)).map
+          ((fun t : Key × List Posting => t.1) ∘ fun t : Key × Nat × List Posting => (t.1, t.2.2))) l := by
+      intro l F
+      induction l with
+      | nil => simp
+      | cons k rest ih =>
+        simp only [List.map_cons, List.filter_cons]
+        split
+        · simp only [List.map_cons, Function.comp]
+          exact ih.cons_cons k
+        · exact ih.cons k
+    exact this _ _
+  obtain ⟨h1, h2⟩ := C04_term_union_sorted segs
+  exact ⟨h1.sublist hsub, fun k hk => (h2 k).1 (hsub.subset hk)⟩
+
+example : (mergeModel exSegsFwd).terms.map (·.1) = [[97], [98], [99]] := by decide
 
 /-- CLOSURE UNDER RE-MERGING. The merged segment is again a well-formed merge source: per-doc
 data and alive bitset have equal length, and every posting list of its dictionary is strictly
